@@ -355,7 +355,7 @@ var c09Derive = []string{
 	"h.movingWindowRemove(l->l.size()>3).map(w->w.append(v).size())",
 	"h.combineN(3, l->l.append(v))",
 	"h.groupByEqual(x->x%3).map(e->e.values.append(v))",
-	"h.groupByInt(x->x%2).map(e->e.values.append(v))",
+	"h.groupByInt(x->x%2).order(e->e.key).map(e->e.values.append(v))", // (the order of groups is unspecified: fixed here)
 	"h.map(x->[x,v])[i].append(v)",
 	"[h, g][i%2].append(v)",
 	"{a:h, b:g}.a.append(v)",
